@@ -89,6 +89,8 @@ func scalarLines(ind, key, scope, status, kind string) []string {
 		return one("0s")
 	case "str":
 		return one("abc")
+	case "quotedInt":
+		return one(`"10"`)
 	case "float":
 		return one("1.5")
 	case "neg":
@@ -152,6 +154,12 @@ func mapLines(ind, key, status string) []string {
 		return block(in + "__name__: " + okv)
 	case "badTemplate":
 		return block(in + item + `: "{{ $nope }}"`)
+	case "unclosedAction":
+		return block(in + item + `: "{{ $labels.instance"`)
+	case "unclosedComment":
+		return block(in + item + `: "{{/* TODO"`)
+	case "unclosedBrace":
+		return block(in + item + `: "{{ $value }"`)
 	case "execTemplate":
 		return block(in + item + `: "{{ .Nope }}"`)
 	case "valueTemplate":
